@@ -476,6 +476,25 @@ func c12Edges(x *c12ctx, jr *rand.Rand, idx int) {
 			x.verifyAndJudge("degenerate-commitments", fmt.Sprintf("m=%d claims m >= m+1000 with every C_i = %s", m, map[bool]string{true: "0", false: "N"}[fc.Sign() == 0]), d, cred, ctx, nonce, false)
 		}
 	}
+	// one commitment alone degenerate: the relation for m multiplies every C_i, so a single zero collapses it
+	for pos := 0; pos < 4; pos++ {
+		for _, fc := range []*big.Int{bi(0), cp(pk.N), mul(pk.N, bi(3))} {
+			var d *gabi.ProofD
+			pos := pos
+			pv, _ := mon.Try(func() {
+				dis, hid := hiddenOf(cred, []int{1})
+				p := refimpl.NewDProver(x.key.PK, cred.C.Signature, dis, hid)
+				rp := &refimpl.RangeProver{PK: x.key.PK, Index: 2, M: cred.NormLedger(2), MRand: p.R[2], Sign: 1, A: 1, K: bi(m + 1000), Ld: 128, D: []*big.Int{bi(1), bi(2), bi(3), bi(4)}, ForceC: fc, ForceCOnly: &pos}
+				p.Extra = rp.Commit()
+				c := refimpl.Challenge(ctx, nonce, p.Commit(), false)
+				d = p.Respond(c)
+				d.RangeProofs = map[int][]*rangeproof.Proof{2: {rp.Respond(c)}}
+			})
+			if pv == nil && d != nil {
+				x.verifyAndJudge("degenerate-commitments", fmt.Sprintf("m=%d claims m >= m+1000 with C_%d alone = %s", m, pos, shortInt(fc)), d, cred, ctx, nonce, false)
+			}
+		}
+	}
 	// ---- through the reference prover: true relation m >= 1 (delta = m-1) with odd descriptor fields
 	delta := bi(m - 1)
 	ds := refimpl.FourSquares(delta)
